@@ -47,14 +47,17 @@ def trace_eval_stage(ev, prop, aspects, tier, seed, n_quick=1500, n_thorough=200
         invalid_ok += summary.get("invalid_ok", 0)
         for m in mism:
             e, j = m["event"], m["judgement"]
-            if j["aspect"] not in aspects:
+            hit = [a for a in j["aspects"] if a in aspects]
+            if not hit:
                 continue
+            j["aspect"] = hit[0]
             out.append({"kind": "mismatch", "check": j["aspect"], "repr": "Value", "id": e["id"], "q": cps(e["q"]),
                         "doc": sval_to_json(e["doc"]),
                         "what": "recorded evaluation is not a behaviour of the specification (" + j["aspect"] + ")",
                         "verdict": j["verdict"], "outcome": e["outcome"],
                         "expect": [loc_disp(l) for l in j["expect"]], "actual": [loc_disp(l) for l in e.get("res", [])],
-                        "selector_major": j["sm"], "same_multiset": j["aspect"] != "nodes",
+                        "selector_major": j["sm"], "same_multiset": "nodes" not in j["aspects"],
+                        "internal": [ie for ie in e.get("internal", []) if ie.get("ev") == j["aspect"]][:3],
                         "expected_paths": [cps(x) for x in j["expect_paths"]],
                         "actual_paths": [cps(x) for x in e.get("paths", [])],
                         "res_locs": e.get("res", []), "trace": True})
